@@ -53,6 +53,7 @@ class Kinds:
         self.raw_params = set(raw_params)
         self.raw_attrs = set(raw_attrs)  # attribute names that are raw when read from a parameter object (x_i.n, stats.sum_px)
         self._memo = {}
+        self.widen_is_raw = False  # dtype *provenance* queries: a widened sum of raw values still has a dtype that comes from that input
 
     def kind(self, e, st, seen=None):
         seen = seen if seen is not None else set()
@@ -160,6 +161,8 @@ class Kinds:
                 return "float"
             if fn in WIDEN:
                 ks = {K(a, st, seen) for a in operands[:1]}
+                if self.widen_is_raw and "raw" in ks and fn in ("sum", "nansum", "trace"):
+                    return "raw"
                 return "float" if "float" in ks else "int" if ks <= {"int"} else "other"  # sums of small ints are widened by numpy
             if fn in PRESERVE:
                 if fn == "einsum":
@@ -259,6 +262,18 @@ def check_function(P, R, key, raw_params=(), raw_attrs=(), rule="DTYPE.raw"):
         if kv == "float" and _dtype_guarded(P, f, st, base.id):
             R.ok(rule + ".truncation", key, src(st)[:70], f"the statement runs only when `{base.id}.dtype` passed a test (the in-place form is chosen for floating-point buffers only)", st.lineno, nontrivial=False)
             continue
+        if kv in ("raw", "other") and len(K.raw_params) > 1:
+            # whose dtype does the buffer have, and whose does the value have?  A buffer shaped after one input that is given
+            # values whose dtype comes from another input truncates them when only the first is integer-typed
+            def prov(p_, e_):
+                k_ = Kinds(P, f, (p_,), raw_attrs)
+                k_.widen_is_raw = True
+                return k_.kind(e_, st) == "raw"
+            mine = [p_ for p_ in sorted(K.raw_params) if prov(p_, base)]
+            foreign = [p_ for p_ in sorted(K.raw_params) if p_ not in mine and prov(p_, val)]
+            if mine and foreign and not any(prov(p_, val) for p_ in mine) and not _dtype_guarded(P, f, st, base.id):
+                R.violation(rule + ".truncation", key, src(st)[:70], f"`{base.id}` was allocated with the dtype of `{mine[0]}` and receives a value whose dtype comes from `{foreign[0]}`: when `{mine[0]}` is integer-typed and `{foreign[0]}` is not, the value is truncated", st.lineno)
+                continue
         if kv == "float":
             R.violation(rule + ".truncation", key, src(st)[:70], f"`{base.id}` was allocated with the dtype of an input array; storing a floating-point value into it truncates the value when that input is integer-typed", st.lineno)
         else:
